@@ -126,6 +126,14 @@ def run_case(case):
         rep.nontrivial += 1
     L, D = ref.L, ref.D
     Fin = F.copy()
+    # input forms: whole-number coordinates are also handed over as an int64 array or as nested lists of Python ints
+    # (every third / every third+1 such case); the measures are those of the same point set
+    if case.get("fam") == "s3" and np.all(F == np.round(F)) and np.max(np.abs(F)) < 2**31:
+        k3 = sum(int(x) for x in F.ravel()) % 3
+        if k3 == 1:
+            Fin = F.astype(np.int64)
+        elif k3 == 2:
+            Fin = [[int(x) for x in r] for r in F]
     try:
         poly = ConvexPolyhedron(Fin)
     except Exception as ex:
